@@ -109,7 +109,7 @@ def register(reg, repo):
               labels={("post", 1): "flushed-batch-not-scheduled"}))
 
     reg.add(C(S + "_select_batch_to_flush",
-              requires=["lt_transitive()"],
+              assumes=["lt_transitive()"],
               modifies=["$smem", "$alloc"],
               types={"batch": "BatchBase", "best_batch": "BatchBase", "batches_to_remove": "list",
                      "batches_to_remove[]": "BatchBase"},
@@ -151,7 +151,6 @@ def register(reg, repo):
               labels={("xpost", 1): "after-event-even-when-flush-fails", ("post", 1): "exactly-one-flush"}))
 
     reg.add(C(S + "_continue_with_batch", modifies="*",
-              requires=["lt_transitive()"],
               types={"batch": "BatchBase"},
               post=["implies(result is None, callcount('scheduler.TaskScheduler._flush_batch') == 0)",
                     "implies(result is not None, callcount('scheduler.TaskScheduler._flush_batch') == 1)",
@@ -161,3 +160,9 @@ def register(reg, repo):
                                                               "batch is not None"]},
                       ("xpost", 0): "raises-only-from-the-flush",
                       ("post", 2): "flushes-iff-something-eligible"}))
+
+    reg.add(C(S + "wait_for", modifies="*", types={"task": "AsyncTask"},
+              post=["computed(task)"], xpost=["True"],
+              invariants={1: ["inv()", "two_state('old')"]},
+              labels={"site_requires": {"self._continue_with_batch": ["not computed(task)"]},
+                      ("post", 0): "returns-only-when-task-computed"}))
